@@ -636,9 +636,40 @@ let coq_mop (co : 'o -> string) = function
   | MUp (d, k, o) -> "(MUp " ^ coq_dot d ^ " " ^ coq_n k ^ " " ^ co o ^ ")"
   | MRm (c, ks) -> "(MRm " ^ coq_vc c ^ " (nset_of_list " ^ coq_nlist (nset_to_list ks) ^ "))"
 let coq_mvop = function MVPut (c, v) -> "(MVPut " ^ coq_vc c ^ " " ^ coq_n v ^ ")"
+(* rationals as Coq terms; a numerator / denominator beyond 60 bits is not sampled *)
+let rec pos_bits = function XH -> 1 | XO p | XI p -> 1 + pos_bits p
+let coq_pos p = if pos_bits p > 60 then bad "big" else string_of_int (int_of_pos p)
+let coq_z = function Z0 -> "0" | Zpos p -> coq_pos p | Zneg p -> "(-" ^ coq_pos p ^ ")"
+let coq_qc (q : qc) = "(mkqc (" ^ coq_z q.qnum ^ ")%Z (" ^ coq_pos q.qden ^ ")%positive)"
+let coq_ident (cm : 'm -> string) i = "[" ^ String.concat "; " (List.map (fun (r, m) -> "(" ^ coq_qc r ^ ", " ^ cm m ^ ")") i) ^ "]"
+let coq_gident i = "(" ^ coq_ident coq_n i ^ " : list (Qc * N))"
+let coq_od (a, c) = "(" ^ coq_n a ^ ", " ^ coq_n c ^ ")"
+let coq_lident i = "(" ^ coq_ident coq_od i ^ " : list (Qc * (N * N)))"
+let coq_opt f = function None -> "None" | Some x -> "(Some " ^ f x ^ ")"
+let coq_glist g = "([" ^ String.concat "; " (List.map coq_gident g) ^ "] : list (list (Qc * N)))"
+let coq_clist (l : clist) =
+  "(CList [" ^ String.concat "; " (List.map (fun (i, v) -> "(" ^ coq_lident i ^ ", " ^ coq_n v ^ ")") l.lseq) ^ "] " ^ coq_vc l.lclock ^ ")"
+let coq_lop = function
+  | LInsert (i, v) -> "(LInsert " ^ coq_lident i ^ " " ^ coq_n v ^ ")"
+  | LDelete (i, d) -> "(LDelete " ^ coq_lident i ^ " " ^ coq_dot d ^ ")"
+let coq_ord = function None -> "None" | Some Lt -> "(Some Lt)" | Some Eq -> "(Some Eq)" | Some Gt -> "(Some Gt)"
 let coq_case (f : string) (a : sx list) : string option =
   try
     (match f, a with
+     | "ident.cmp", [x; y; r] ->
+         Some ("bool_decide (Some (idcmp ncompare " ^ coq_gident (ident_sx n_sx x) ^ " " ^ coq_gident (ident_sx n_sx y) ^ ") = " ^ coq_ord (ord_sx r) ^ ")")
+     | "ident.between", [lo; hi; m; r] ->
+         Some ("bool_decide (between ncompare " ^ coq_opt coq_gident (opt_sx (ident_sx n_sx) lo) ^ " " ^ coq_opt coq_gident (opt_sx (ident_sx n_sx) hi) ^ " " ^ coq_n (n_sx m) ^ " = " ^ coq_gident (ident_sx n_sx r) ^ ")")
+     | "glist.apply", [g; o; r] ->
+         Some ("bool_decide (gl_apply " ^ coq_glist (glist_sx g) ^ " " ^ coq_gident (ident_sx n_sx (field "id" o)) ^ " = " ^ coq_glist (glist_sx r) ^ ")")
+     | "glist.merge", [g; o; r] ->
+         Some ("bool_decide (gl_merge " ^ coq_glist (glist_sx g) ^ " " ^ coq_glist (glist_sx o) ^ " = " ^ coq_glist (glist_sx r) ^ ")")
+     | "glist.insert", [g; ix; x; r] when r <> A "panic" ->
+         Some ("bool_decide (gl_insert " ^ coq_glist (glist_sx g) ^ " " ^ string_of_int (int_sx ix) ^ "%nat " ^ coq_n (n_sx x) ^ " = Some " ^ coq_gident (ident_sx n_sx (field "id" r)) ^ ")")
+     | "list.apply", [s; o; r] when r <> A "panic" ->
+         Some ("bool_decide (l_apply " ^ coq_clist (clist_sx s) ^ " " ^ coq_lop (lop_sx o) ^ " = Some " ^ coq_clist (clist_sx r) ^ ")")
+     | "list.insert_index", [s; ix; v; act; o] ->
+         Some ("bool_decide (l_insert_index " ^ coq_clist (clist_sx s) ^ " " ^ string_of_int (int_sx ix) ^ "%nat " ^ coq_n (n_sx v) ^ " " ^ coq_n (n_sx act) ^ " = " ^ coq_lop (lop_sx o) ^ ")")
      | "vclock.merge", [c; o; r] -> Some ("vc_eqb (vmerge " ^ coq_vc (vc_sx c) ^ " " ^ coq_vc (vc_sx o) ^ ") " ^ coq_vc (vc_sx r))
      | "vclock.reset", [c; o; r] -> Some ("vc_eqb (vreset " ^ coq_vc (vc_sx c) ^ " " ^ coq_vc (vc_sx o) ^ ") " ^ coq_vc (vc_sx r))
      | "vclock.glb", [c; o; r] -> Some ("vc_eqb (vglb " ^ coq_vc (vc_sx c) ^ " " ^ coq_vc (vc_sx o) ^ ") " ^ coq_vc (vc_sx r))
